@@ -20,6 +20,8 @@ def job_ops(job, plan):
     rng = common.Rng(job["seed"])
     sizes = cr.gen_sizes(rng, plan)
     ops = [cr.create_line(job["cfg"]), "limit %d" % job["N"]]
+    if rng.chance(.35):     # end-of-input signalled by in == NULL together with a non-zero (stale) ilen
+        ops.append("stale %d" % rng.choice([1, 37, 300, 100000]))
     style = rng.below(4)
     cap = [10 ** 9, 60, 3000, 10 ** 9][style]
     ncalls = rng.choice([3, 10, 40, 150])
